@@ -621,7 +621,7 @@ fn server_task(tc: TaskCtx, net: Net, cfg: Cfg, cmds: CmdQueue, handlers: Vec<Va
                     Cmd::Shutdown(n) => {
                         let r = tc.call("shutdown", "tx:control", conn.shutdown(n)).await;
                         match r {
-                            Ok(()) => tc.ret("shutdown", json!({"k": "ok", "n": n})),
+                            Ok(()) => tc.ret("shutdown", json!({"k": "ok", "n": if n > (1 << 30) { -1i64 } else { n as i64 }})),
                             Err(e) => tc.ret("shutdown", proj::conn_err(&e)),
                         }
                     }
@@ -729,7 +729,7 @@ fn client_task(tc: TaskCtx, net: Net, cfg: Cfg, cmds: CmdQueue, sender_slot: Rc<
                     Cmd::Shutdown(n) => {
                         let r = tc.call("shutdown", "tx:control", conn.shutdown(n)).await;
                         match r {
-                            Ok(()) => tc.ret("shutdown", json!({"k": "ok", "n": n})),
+                            Ok(()) => tc.ret("shutdown", json!({"k": "ok", "n": if n > (1 << 30) { -1i64 } else { n as i64 }})),
                             Err(e) => tc.ret("shutdown", proj::conn_err(&e)),
                         }
                     }
@@ -1148,7 +1148,15 @@ pub fn run_one(scn: &Value) -> Vec<Value> {
             }
             "shutdown" => {
                 let q = if st["net"] == "c" { &w.cli_cmds } else { &w.srv_cmds };
-                q.push(Cmd::Shutdown(st["n"].as_u64().unwrap_or(0) as usize));
+                // (n_max: usize::MAX, n_pow: a power of two beyond what a scenario can write as a number)
+                let n = if st["n_max"] == true {
+                    usize::MAX
+                } else if let Some(p) = st["n_pow"].as_u64() {
+                    1usize << p
+                } else {
+                    st["n"].as_u64().unwrap_or(0) as usize
+                };
+                q.push(Cmd::Shutdown(n));
             }
             "drop_conn" => {
                 let q = if st["net"] == "c" || role == "client" { &w.cli_cmds } else { &w.srv_cmds };
